@@ -25,6 +25,23 @@ CLAIMS = {
  'C11': {'text': 'Decides (necessary) domain separation as constant propagation: from every public entry point exactly the interface api id (plus BLIND_ for blind generators) reaches each DST/seed role; suites differ in every interface constant.',
          'note': TB + 'Disjointness / identity-freeness of hash-to-curve outputs is assumed.',
          'technique': 'context-sensitive constant propagation over the MIR call tree + const evaluation'},
+ 'C08': {'text': 'Decides (sound, may-report) panic freedom of the 21 entry points and the derived Deserialize impls: every bounds / overflow / range-index / unwrap / explicit-panic site '
+                 'reachable in the MIR is proven by a difference-bound length domain, carried as a precondition to every call site up to the entry points, or covered by an audited entry with a recomputed structural fingerprint; '
+                 'generator counts and allocations must be bounded by input lengths. Wall-time budgets and termination of library code are not decided.',
+         'note': TB + 'Lengths are bounded by isize::MAX / size_of(element). Audited discharges are listed in rules/audit.py with their reasons.',
+         'technique': 'MIR panic-site census + difference-bound (zone) abstract interpretation with interprocedural preconditions'},
+ 'C09': {'text': 'Decides completely the framing clause: the set of lengths each octet decoder accepts (difference bounds + modular guards at accept sites, composed through delegated decoders) equals {96}, {32}, {272+32k}, {64+32k}, {112+32k}; '
+                 'decides as necessary conditions that acceptance is gated by the checked point / scalar constructors and by identity / zero exclusion. Round-trip value equality is not decided.',
+         'note': TB + 'Canonicality of the external checked constructors (bls12_381_plus) is assumed.',
+         'technique': 'zone abstract interpretation of accepted-length sets + control-dependence gates'},
+ 'C10': {'text': 'Byte-for-byte conformance is a value-level property and is NOT claimed. Decides completely the three size limits (boundary values proven at the use site) and the schedule clause (no shared mutable state); '
+                 'decides as necessary conditions: constants equal the draft table, ingredient sets of every hash, un-narrowed length prefixes, I2OSP widths.',
+         'note': TB + 'Output equality with a reference implementation is left to the fixture vectors.',
+         'technique': 'zone bounds at use sites, const evaluation, must-flow, shared-state census'},
+ 'C12': {'text': 'Decides completely: update_signature returns a signature only if update_index < n (n-1 allowed, n refused), selects generators.values[update_index+1], reaches the same interface constants as sign, and (no shared state) a history of updates is a composition of single steps; its reachable panic sites are discharged. '
+                 'The group algebra and wrong-old-value behaviour are not decided.',
+         'note': TB,
+         'technique': 'zone bounds at the accept site + constant propagation + shared-state census'},
 }
 
 NOT_APPLICABLE = {}
